@@ -150,3 +150,54 @@ package fontscan
 //@   assert_at call matchWeight#1 : [witness2] implies(exists(j, 0, len(candidates0), mark(j) && old(stretchOf(fs, candidates0, j)) == qStretch(query0) && old(styleOf(fs, candidates0, j)) == qStyle(query0) && old(weightOf(fs, candidates0, j)) == qWeight(query0)),
 //@     | matchingStretch == qStretch(query0) && matchingStyle == qStyle(query0) && exists(k, 0, len(candidates), mark(k) && weightOf(fs, candidates, k) == qWeight(query0)))
 //@   modifies candidates[:]
+//
+// ---------------------------------------------------------------------------------------------
+// Property C11: "the rune-set container itself behaves as a mathematical set under add, delete, contains, inclusion".
+// Abstract view: rune r (0 <= r <= 0x10FFFF) is in rs iff some page p has ref == r>>8 and bit (r & 0xff) of its set.
+// Representation invariant: page refs strictly increasing.
+//@ spec pagesSorted(rs RuneSet) bool = forall(k, 0, len(rs), forall(l, k+1, len(rs), rs[k].ref < rs[l].ref))
+//@ spec bitOf(p runePage, r rune) bool = p.set[int((r&0xff)>>5)]&(uint32(1)<<uint32(r&0x1f)) != 0
+//@ spec inSet(rs RuneSet, r rune) bool = exists(p, 0, len(rs), rs[p].ref == uint16(r>>8) && bitOf(rs[p], r))
+//
+//@ func RuneSet.findPageFrom C11
+//@   mode bv
+//@   requires pagesSorted(rs) && 0 <= low && low <= len(rs)
+//@   requires [searched-prefix-is-smaller] low == 0 || rs[low-1].ref < ref
+//@   ensures [found] implies(result >= 0, low0 <= result && result < len(rs) && rs[result].ref == ref)
+//@   ensures [absent] implies(result < 0, low0 <= -(result+1) && -(result+1) <= len(rs) && forall(k, low0, len(rs), rs[k].ref != ref) &&
+//@     | forall(k, low0, -(result+1), rs[k].ref < ref) && forall(k, -(result+1), len(rs), rs[k].ref > ref))
+//@   modifies nothing
+//@   loop 1 invariant [bounds] low0 <= low && low <= len(rs) && -1 <= high && high < len(rs) && low <= high+1
+//@   loop 1 invariant [left] forall(k, low0, low, rs[k].ref < ref)
+//@   loop 1 invariant [right] forall(k, high+1, len(rs), rs[k].ref > ref)
+//
+//@ func RuneSet.Contains C11
+//@   mode bv
+//@   requires pagesSorted(rs) && 0 <= r && r <= 0x10FFFF
+//@   ensures [membership] result == inSet(rs, r)
+//@   modifies nothing
+//
+//@ func RuneSet.Delete C11
+//@   mode bv
+//@   requires pagesSorted(rs) && 0 <= r && r <= 0x10FFFF
+//@   ensures [removed] !inSet(rs, r)
+//@   ensures [sorted] pagesSorted(rs)
+//@   ensures [pages-kept] forall(p, 0, len(rs), rs[p].ref == old(rs[p].ref))
+//@   ensures [others-kept] forall(p, 0, len(rs), forall(j, 0, 8, implies(!(rs[p].ref == uint16(r>>8) && j == int((r&0xff)>>5)), rs[p].set[j] == old(rs[p].set[j]))))
+//@   ensures [same-word-others] forall(p, 0, len(rs), implies(rs[p].ref == uint16(r>>8), rs[p].set[int((r&0xff)>>5)] == old(rs[p].set[int((r&0xff)>>5)]) & ^(uint32(1)<<uint32(r&0x1f))))
+//@   modifies rs[:].set
+//
+//@ func pageSet.includes C11
+//@   mode bv
+//@   ensures [subset] result == forall(j, 0, 8, b[j] & ^a[j] == 0)
+//@   modifies nothing
+//@   loop 1 invariant [so-far] forall(j, 0, rangeindex+1, b[j] & ^a[j] == 0)
+//
+// addRangeToPage: bits' == bits union [start, end] (positions within one 256-rune page).
+//@ func addRangeToPage C11
+//@   mode bv
+//@   requires start <= end
+//@   ensures [union] forall(q, 0, 256, ((*page)[q>>5]&(uint32(1)<<uint32(q&31)) != 0) == (old((*page)[q>>5]&(uint32(1)<<uint32(q&31)) != 0) || (int(start) <= q && q <= int(end))))
+//@   modifies *page
+//@   loop 1 invariant [middle-filled] uintIndexStart+1 <= index && index <= uintIndexEnd && uintIndexEnd <= 7 && uintIndexStart == start>>5 && uintIndexEnd == end>>5 && bitIndexStart == start&0x1f && bitIndexEnd == end&0x1f
+//@   loop 1 invariant [words] forall(j, 0, 8, (*page)[j] == ite(j == int(uintIndexStart), old((*page)[j]) | ((uint32(1)<<(uint32(31)-uint32(start&0x1f)+1)-1)<<uint32(start&0x1f)), ite(int(uintIndexStart) < j && j < int(index), uint32(0xFFFFFFFF), old((*page)[j]))))
